@@ -21,7 +21,12 @@ use serde::de::{DeserializeSeed, MapAccess, SeqAccess};
 
 use super::{Config, SchemaAwareDeserializer};
 use crate::schema::MapSchema;
-use crate::{Error, Schema, schema::ArraySchema, util::zag_i64};
+use crate::{
+    Error, Schema,
+    error::Details,
+    schema::ArraySchema,
+    util::{safe_len, zag_i64},
+};
 
 /// Deserialize sequences from an Avro array.
 pub struct BlockDeserializer<'s, 'r, R: Read, S: Borrow<Schema>> {
@@ -81,7 +86,11 @@ impl<'s, 'r, R: Read, S: Borrow<Schema>> BlockDeserializer<'s, 'r, R, S> {
             // If the block size is zero the array/map is finished
             Ok(None)
         } else {
-            Ok(Some(remaining.unsigned_abs()))
+            // The count comes straight from the (untrusted) input: bound it like every other declared
+            // length, otherwise a few bytes can make the caller iterate up to 2^63 times
+            let count = remaining.unsigned_abs();
+            let count = usize::try_from(count).map_err(|e| Details::ConvertU64ToUsize(e, count))?;
+            Ok(Some(safe_len(count)? as u64))
         }
     }
 }
